@@ -66,6 +66,10 @@ RULE = ("cookie/token pairs: issued (v1/v2), re-masked, cross-version, other ses
         "POST PUT PATCH DELETE (+ GET HEAD OPTIONS); both xsrf_cookie_version settings; non-trivial = a checked "
         "method whose request carries both a cookie and a token; distinct by canonical JSON")
 EXHAUSTIVE = {"quick": False, "thorough": False}
+CLAUSE_CAVEATS = [
+    "Spec.presented takes the first non-empty of form field, X-XSRFToken, X-CSRFToken (as the code does): a valid header behind a non-empty wrong form field is refused; the property's 'carries a token (form field or header)' is read that way",
+    "status codes, 'no server error logged', and GET/HEAD/OPTIONS exemption are tie-only",
+]
 CLAUSES = {
     "a non-GET/HEAD/OPTIONS request reaches the handler iff it carries a token that decodes to the same non-empty "
     "secret as the _xsrf cookie": "check_eq_spec (model accepts <=> Spec.accepts, unless the token decodes to the "
